@@ -38,6 +38,7 @@ type Case struct {
 	Dev  *Val   `json:"dev,omitempty"` // modelled known deviation (spec: KnownDeviation_*)
 	Lo   *Val   `json:"lo,omitempty"`  // bounds the specification derives for the result (weighted mean)
 	Hi   *Val   `json:"hi,omitempty"`
+	Cond int    `json:"cond,omitempty"` // condition of a log-scale evaluation (relative error cond * u)
 	Ty   string `json:"ty,omitempty"`
 }
 
@@ -294,6 +295,9 @@ func (rp *replayer) judge(c *Case, rt string, ti *tinfo, oc outcome, xs []float6
 				step = float64(math.SmallestNonzeroFloat32)
 			}
 			key := fmt.Sprint("tiny|", ti.bits, "|", c.Op, "|", floatsKey(xs))
+			if c.Par != nil {
+				key += "|" + c.Par.String()
+			}
 			if prev, ok := rp.cross[key]; ok {
 				if !(math.Abs(prev.v-oc.o.f) <= 4*step+4*u*math.Abs(prev.v)) {
 					rp.mismatch(c, rt, "cross", impl, order, vh.M{"observed": fs(oc.o.f), "other": fs(prev.v), "other_instance": prev.who})
@@ -305,7 +309,7 @@ func (rp *replayer) judge(c *Case, rt string, ti *tinfo, oc outcome, xs []float6
 			}
 			return
 		}
-		tol += minf * u
+		tol += minf*u + 16*float64(c.Cond)*u*math.Abs(v)
 		if !(math.Abs(oc.o.f-v) <= tol) {
 			rp.mismatch(c, rt, what, impl, order, vh.M{"observed": fs(oc.o.f), "expected_value": fs(v), "tol": fs(tol), "term": t.String()})
 			return
@@ -683,7 +687,7 @@ func (rp *replayer) runVec(c *Case) {
 		if c.Lo != nil && c.Hi != nil && oc.panicMsg == "" && ti.cls == "float" {
 			// whatever the spread of the entries and the size of alpha
 			lo, hi := c.Lo.Float(), c.Hi.Float()
-			slack := 64 * unitRoundoff(ti) * math.Max(math.Abs(lo), math.Abs(hi))
+			slack := (64 + 16*float64(c.Cond)) * unitRoundoff(ti) * math.Max(math.Abs(lo), math.Abs(hi))
 			if !(oc.o.f >= lo-slack && oc.o.f <= hi+slack) {
 				rp.mismatch(c, c.R, "bound", "generic", order, vh.M{"observed": fs(oc.o.f), "lo": fs(lo), "hi": fs(hi)})
 				continue
